@@ -68,6 +68,12 @@ impl<'a> Gen<'a> {
         if self.k.comments != Comments::None && self.rng.chance(1, 8) { let c = self.comment(false); if c.ends_with('\n') { format!(" {}", c) } else { format!(" {}{}", c, self.nl()) } }
         else { self.nl().to_string() }
     }
+    /// between a condition and its `do` / `then`: one time in ten (when comments are generated) a line comment trails the
+    /// condition and the keyword stands on the next line
+    fn cond_end(&mut self) -> String {
+        if self.k.comments != Comments::None && self.rng.chance(1, 10) { self.stats[0] += 1; format!(" -- k{}{}{}", self.rng.below(1000), self.nl(), self.indent()) }
+        else { " ".to_string() }
+    }
     fn indent(&self) -> String { "\t".repeat(self.depth) }
 
     fn atom(&mut self) -> String {
@@ -187,12 +193,12 @@ impl<'a> Gen<'a> {
             3 | 4 => { let c = self.prefix_chain(true); if c.starts_with('(') && self.rng.chance(1, 2) { format!("{}()", self.name()) } else { c } }
             5 => { let o = self.open_nl(); format!("local function {}(a){}{}{}end", self.name(), o, { self.depth += 1; let b = self.block(2); self.depth -= 1; b }, ind) }
             6 => { let o = self.open_nl(); let b = body(self, 3); format!("do{}{}{}end", o, b, ind) }
-            7 => { let c = self.expr(2); let o = self.open_nl(); let b = body(self, 3); format!("while {} do{}{}{}end", c, o, b, ind) }
+            7 => { let c = self.expr(2); let ce = self.cond_end(); let o = self.open_nl(); let b = body(self, 3); format!("while {}{}do{}{}{}end", c, ce, o, b, ind) }
             8 => { let o = self.open_nl(); let b = body(self, 2); let c = self.expr(2); format!("repeat{}{}{}until {}", o, b, ind, c) }
             9 | 10 => {
-                let c = self.expr(2); let o = self.open_nl(); let b = body(self, 3);
-                let mut s = format!("if {} then{}{}", c, o, b);
-                if self.rng.chance(1, 3) { let c2 = self.expr(1); let o2 = self.open_nl(); let b2 = body(self, 2); s.push_str(&format!("{}elseif {} then{}{}", ind, c2, o2, b2)); }
+                let c = self.expr(2); let ce = self.cond_end(); let o = self.open_nl(); let b = body(self, 3);
+                let mut s = format!("if {}{}then{}{}", c, ce, o, b);
+                if self.rng.chance(1, 3) { let c2 = self.expr(1); let ce2 = self.cond_end(); let o2 = self.open_nl(); let b2 = body(self, 2); s.push_str(&format!("{}elseif {}{}then{}{}", ind, c2, ce2, o2, b2)); }
                 if self.rng.chance(1, 3) { let o3 = self.open_nl(); let b3 = body(self, 2); s.push_str(&format!("{}else{}{}", ind, o3, b3)); }
                 s.push_str(&format!("{}end", ind)); s
             }
